@@ -6,6 +6,8 @@ import (
 	"os"
 
 	"verif/sq/c01"
+	"verif/sq/c16"
+	"verif/sq/c20"
 	"verif/sq/msg"
 	"verif/sq/rep"
 	"verif/sq/sqrun"
@@ -16,7 +18,9 @@ var checks = map[string]*sqrun.Check{
 	"C02": msg.C02,
 	"C14": msg.C14,
 	"C15": msg.C15,
+	"C16": c16.Check,
 	"C19": msg.C19,
+	"C20": c20.Check,
 	"C08": rep.C08,
 	"C09": rep.C09,
 	"C18": rep.C18,
